@@ -10,6 +10,9 @@
 (* (the code replaces it by infinity); it is encoded as the value 9.        *)
 (***************************************************************************)
 EXTENDS Integers, Sequences, TLC
+\* The iteration schemes take an iteration count; the MTOW cap and monotonicity of the fuel-dependent schemes hold for
+\* every count - a single iteration, several, the default (the harness runs them all)
+IterCounts == {1, 2, 4, "default"}
 
 CONSTANTS MaxLen, Alphabet
 
